@@ -55,6 +55,11 @@ struct sthr {
 	struct sb_ent sb[SB_MAX];
 	int sb_n;
 	uintptr_t stk_lo, stk_hi;
+	/* planned suspension inside the current operation (usim_stall_plan) */
+	unsigned stall_mask;		/* yield kinds that count */
+	int stall_ord;			/* freeze at the stall_ord-th such yield (0 = none planned) */
+	uint32_t stall_len;		/* for this many scheduler steps */
+	uint64_t freeze_until;		/* timed freeze in effect until this step (0 = none) */
 	uint64_t yields, relaxes, blocks, accs;
 	int frozen;
 	long prio;
@@ -98,6 +103,8 @@ struct gstate {
 	int tso;
 	int strategy;		/* 0 random walk, 1 PCT, 2 stall-one, 3 explicit */
 	uint32_t stick;		/* /256 */
+	int ntimed_frozen;
+	int sync_bias;		/* random walk: preemptions concentrated at synchronisation calls (lock/unlock/futex/...) */
 	uint32_t p_plain;	/* /256 : 0, 16, 64, 256 */
 	uint32_t p_drain;	/* /256 */
 	int membarrier_kind;	/* 0 none 1 shared 2 private expedited */
